@@ -62,15 +62,34 @@ def gen_cases(tier, seed):
                 max_iters=int(rng.integers(1, 7)), R=int(rng.integers(1, 3)), via_gcp_opt=bool(i % 4 == 0),
                 f_est_tol=[None, None, "above-start", "below-start"][int(rng.integers(0, 4))],
                 sampler=[None, None, "strat/strat", "strat/semistrat", "strat/semistrat", "uniform/uniform"][int(rng.integers(0, 6))])
+    # solves in which epochs fail and later ones recover in part (large steps, several failures allowed, enough epochs): what counts
+    # as a failed epoch is decided against the best estimate so far, not against the epoch before
+    for i in range(18 if tier == "quick" else 180):
+        N = int(rng.integers(2, 4))
+        shape = [int(s) for s in rng.integers(2, 5, size=N)]
+        loss, par = losses[i % 2]
+        yield C(w="solve", shape=shape, loss=loss, par=par, solver=["SGD", "Adam", "Adagrad"][i % 3], sparse=bool((i // 3) % 2),
+                rate=[0.2, 1.0, 2.0][i % 3] * float(rng.choice([0.5, 1.0, 2.0])), max_fails=3, epoch_iters=int(rng.integers(1, 4)),
+                max_iters=8, R=int(rng.integers(1, 3)), via_gcp_opt=bool(i % 6 == 0), f_est_tol=None, sampler=None, failing=True)
     for i in range(24 if tier == "quick" else 160):
         shape = [int(s) for s in rng.integers(2, 5, size=int(rng.integers(2, 4)))]
         loss, par = losses[i % 4]
         yield C(w="lbfgsb", shape=shape, loss=loss, par=par, R=int(rng.integers(1, 3)), maxiter=int(rng.integers(1, 8)), masked=bool(i % 3 == 0),
                 maxls=[None, None, 1, 2, 3][int(rng.integers(0, 5))], via_gcp_opt=bool(i % 2), mask_form=["ndarray", "tensor"][(i // 2) % 2])
+    for i in range(8 if tier == "quick" else 48):
+        shape = [int(s) for s in rng.integers(2, 5, size=int(rng.integers(2, 4)))]
+        yield C(w="lbfgsb", shape=shape, loss="GAUSSIAN", par=None, R=int(rng.integers(1, 3)), maxiter=int(rng.integers(8, 30)), masked=bool(i % 4 == 3),
+                maxls=None, via_gcp_opt=bool(i % 2 == 0), mask_form=["ndarray", "tensor"][(i // 2) % 2], active_bound=True)
     for i in range(24 if tier == "quick" else 240):
         yield C(w="reuse", solver=["SGD", "Adam", "Adagrad", "LBFGSB"][i % 4], loss=["GAUSSIAN", "POISSON"][(i // 4) % 2],
                 shapes=[[int(s) for s in rng.integers(2, 5, size=int(rng.integers(2, 4)))] for _ in range(3)], same_size=bool(i % 2),
                 rate=float(rng.choice([1e-2, 0.5])), nsolves=int(rng.integers(2, 4)))
+    # step sizes at which epochs fail (the estimate goes up): what a solve remembers about failed epochs (their count, the decayed
+    # step) must not reach the next solve on the same object
+    for i in range(12 if tier == "quick" else 60):
+        yield C(w="reuse", solver=["SGD", "Adam", "Adagrad"][i % 3], loss=["GAUSSIAN", "POISSON"][(i // 3) % 2],
+                shapes=[[int(s) for s in rng.integers(2, 5, size=int(rng.integers(2, 4)))] for _ in range(3)], same_size=bool((i // 6) % 2),
+                rate=[0.7, 3.0, 3.0][i % 3] * float(rng.choice([1.0, 2.0])), nsolves=3, max_iters=5, failing_rate=True)
     for i in range(8 if tier == "quick" else 40):
         yield C(w="reuse", solver=["LBFGSB", "SGD", "Adam", "Adagrad"][i % 4], loss="GAUSSIAN", shapes=[[int(s) for s in rng.integers(2, 5, size=3)] for _ in range(2)],
                 same_size=bool(i % 2), rate=1e-2, nsolves=2, failed_first=True, maxiter=6)
@@ -412,6 +431,14 @@ def _w_lbfgsb(case, ctx, rng):
     Xd = _loss_data(rng, shape, loss)
     X = ttb.tensor(Xd.copy())
     fh, gh, lb = fg_setup(getattr(Objectives, loss), None, case["par"])
+    if case.get("active_bound"):
+        # a caller-supplied objective (function, gradient, lower bound 0) whose unconstrained minimiser has negative factor entries:
+        # least squares on data with a negative slice.  The bound is active at the solution, so a solve that lost it ends elsewhere
+        lb = 0.0
+        Xd = np.abs(Xd) + 0.5
+        Xd[int(rng.integers(0, shape[0]))] *= -1.0
+        X = ttb.tensor(Xd.copy())
+        ctx.feat(active_bound=True)
     M0 = ttb.ktensor([rng.uniform(0.2, 1.0, size=(s, R)) for s in shape])
     mask = (rng.random(shape) < 0.8).astype(float) if case["masked"] else None
     kwls = {} if case.get("maxls") is None else {"maxls": case["maxls"]}
@@ -435,20 +462,23 @@ def _w_lbfgsb(case, ctx, rng):
     f0 = evaluate(M0, X, mask, fh, None)
     f1 = evaluate(M, X, mask, fh, None)
     ctx.check(f1 <= f0 + 1e-10 * max(1.0, abs(f0)), "LBFGSB.solve", "WORSE-THAN-START", f"objective of the result {f1!r} > start {f0!r}")
-    if not via:
+    if True:
+        # (also through gcp_opt with the objective given as (function, gradient, lower bound) and the start as `init`: the same solve)
         # differential oracle: the returned model is the final iterate of SciPy's L-BFGS-B on the same objective (exact objective and
         # gradient of the library, flattened factor by factor) from the same start with the same options -- not merely "some point the
         # solver evaluated"
         from scipy.optimize import fmin_l_bfgs_b
 
-        Mw = M0.copy()
+        # (gcp_opt balances the start it is given across the factors first and hands that start back: the solve begins there)
+        Ms = r.value[1].copy() if via else M0
+        Mw = Ms.copy()
         N_ = len(shape)
 
         def fg(x):
             Mw.update(np.arange(N_), x)
             F_, G_ = evaluate(Mw, X, mask, fh, gh)
             return F_, ttb.ktensor(G_, copy=False).tovec(False)
-        x0 = M0.tovec(False).copy()
+        x0 = Ms.tovec(False).copy()
         xr, fr, ir = fmin_l_bfgs_b(fg, x0, fprime=None, approx_grad=False, bounds=[(lb, np.inf)] * len(x0), maxiter=case["maxiter"], callback=lambda xk: None, **kwls)
         got = M.tovec(False)
         sc_ = max(1.0, float(np.max(np.abs(xr))))
@@ -490,7 +520,7 @@ def _w_reuse(case, ctx, rng):
     def mk():
         if case["solver"] == "LBFGSB":
             return OPT.LBFGSB(maxiter=case.get("maxiter", 4))
-        return _mk_solver(case["solver"], rate=case["rate"], max_fails=1, epoch_iters=2, max_iters=3)
+        return _mk_solver(case["solver"], rate=case["rate"], max_fails=1, epoch_iters=2, max_iters=case.get("max_iters", 3))
 
     shared = mk()
     if case.get("failed_first"):
@@ -541,6 +571,16 @@ def _w_reuse(case, ctx, rng):
             return
         if not r1.ok:
             return
+        i1, i2 = r1.value[1], r2.value[1]
+        if isinstance(i1, dict) and isinstance(i2, dict):
+            # what the solve reports about its course (everything but clock readings) is the same as well
+            keys = [k_ for k_ in ("f_est_trace", "step_trace", "n_epoch", "final_f", "nit", "funcalls", "warnflag") if k_ in i1 or k_ in i2]
+            diff = [k_ for k_ in keys if not (k_ in i1 and k_ in i2 and np.array_equal(np.asarray(i1[k_]), np.asarray(i2[k_]), equal_nan=True))]
+            ctx.check(not diff, case["solver"] + ".solve", "REUSE-DIFFERS-REPORT",
+                      lambda: f"solve #{i + 1} on a reused optimizer object reports another course than the same solve on a fresh object: "
+                      + "; ".join(f"{k_}: {np.asarray(i1.get(k_)).tolist()} vs {np.asarray(i2.get(k_)).tolist()}" for k_ in diff), solve_index=min(i, 2))
+            if "f_est_trace" in i1 and len(i1["f_est_trace"]) >= 2 and bool(np.any(np.diff(np.asarray(i1["f_est_trace"], dtype=float)) > 0)):
+                ctx.tag("solve-with-a-failed-epoch")
         a, b = denote(r1.value[0]), denote(r2.value[0])
         ctx.check(a.shape == b.shape and bool(np.array_equal(a, b)), case["solver"] + ".solve", "REUSE-DIFFERS",
                   lambda: f"solve #{i + 1} on a reused optimizer object differs from the same solve on a fresh object: max diff {np.max(np.abs(a - b))!r}",
